@@ -4,8 +4,21 @@
 applies the patch in a scratch worktree, runs the suite and ALL quick checks against it."""
 import argparse, json, os, shutil, subprocess, sys, tempfile, time
 PROPS = ['C%02d' % i for i in range(1, 19)]
+def snapshot():
+    """a private copy of the machinery, so that edits in /verif during a long evaluation cannot
+    change the checks half-way, and the evaluation does not overwrite /verif/evidence"""
+    snap = tempfile.mkdtemp(prefix='vs.', dir='/tmp')
+    for n in ('mc', 'check', 'known_findings.json', 'findings', 'properties.jsonl', 'selftest'):
+        src = os.path.join('/verif', n)
+        (shutil.copytree if os.path.isdir(src) else shutil.copy)(src, os.path.join(snap, n))
+    return snap
+
 def sh(cmd, **kw): return subprocess.run(cmd, capture_output=True, text=True, **kw)
+SNAP = None
+
 def main():
+    global SNAP
+    SNAP = snapshot()
     ap = argparse.ArgumentParser(); ap.add_argument('seed'); ap.add_argument('--keep-as'); a = ap.parse_args()
     seed = os.path.abspath(a.seed)
     d = tempfile.mkdtemp(prefix='bv.', dir='/tmp'); os.rmdir(d)
@@ -22,7 +35,7 @@ def main():
         bad = []
         for p in PROPS:
             t0 = time.time()
-            r = sh(['/verif/check', p], env=dict(os.environ, VERIF_REPO=d))
+            r = sh([os.path.join(SNAP, 'check'), p], env=dict(os.environ, VERIF_REPO=d))
             lines = r.stdout.strip().splitlines()
             viol = [l for l in lines if l.startswith('VIOLATION')]
             kinds = sorted({l.strip().split(' cls=')[0] for l in lines if l.strip().startswith('kind=')})
@@ -40,5 +53,5 @@ def main():
             json.dump(meta, open(os.path.join(dst,'meta.json'),'w'), indent=1)
         return 0
     finally:
-        sh(['git','-C','/repo','worktree','remove','--force',d]); shutil.rmtree(d, ignore_errors=True)
+        sh(['git','-C','/repo','worktree','remove','--force',d]); shutil.rmtree(d, ignore_errors=True); shutil.rmtree(SNAP, ignore_errors=True)
 if __name__ == '__main__': sys.exit(main())
